@@ -84,7 +84,14 @@ func (f *Frame) ghostAt(st *State, s ast.Stmt, before bool) {
 		if !before {
 			at = s.End() // variables declared by the statement itself are visible to an "after" ghost
 		}
-		args := f.bindByName(st, g.Params, at, nil)
+		// inside a slice/int range loop a ghost may name the loop index (kvcIdx) although the code does not
+		var special map[string]Term
+		if n := len(f.rangeIdx); n > 0 {
+			if t, ok := st.env[f.rangeIdx[n-1]]; ok {
+				special = map[string]Term{"kvcIdx": t}
+			}
+		}
+		args := f.bindByName(st, g.Params, at, special)
 		gf := &Frame{vc: f.vc, pk: g.Pkg, spec: true, old: f.old, bound: map[types.Object]Term{}, specEnv: f.specEnv, closures: map[types.Object]*ast.FuncLit{}}
 		gf.inline(st, g.Pkg, g.Decl, nil, args, f.tsub, true, s.Pos())
 	}
